@@ -45,6 +45,8 @@ FIELD_TYPES = {
     ('SupvisorsOptions', 'disabilities_file'): TOpt(STR),
     ('SupvisorsOptions', 'rules_files'): TOpt(TList(STR)),
     ('ProcessCommand', 'minimum_ticks'): INT,
+    # declared at base level so that specifications over a ProcessCommand can read it (field of ProcessStartCommand)
+    ('ProcessCommand', 'ignore_wait_exit'): BOOL,
     ('SupvisorsInstanceStatus', 'stats_collector'): TOpt(TObj('StatisticsCollectorProcess')),
     # annotated float, but only ever built by HostStatisticsCompiler.add_instance from options.stats_histo (an int)
     ('HostStatisticsInstance', 'depth'): INT,
